@@ -390,13 +390,33 @@ namespace fixedmath
         || result > as_fixed( fixed_internal(-0x7fffffffffff0000ll)) );
       }
     
+    ///\returns true when lh * rh is not representable in fixed_internal
+    [[ gnu::const, gnu::always_inline ]]
+    constexpr bool multiply_overflows( fixed_internal lh, fixed_internal rh ) noexcept
+      {
+      fixed_internal_unsigned const ulh { lh < 0 ? fixed_internal_unsigned{} - static_cast<fixed_internal_unsigned>(lh) : static_cast<fixed_internal_unsigned>(lh) };
+      fixed_internal_unsigned const urh { rh < 0 ? fixed_internal_unsigned{} - static_cast<fixed_internal_unsigned>(rh) : static_cast<fixed_internal_unsigned>(rh) };
+      //both magnitudes below 2^31, product is below 2^62
+      if( fixed_likely( ((ulh | urh) >> 31) == 0 ) )
+        return false;
+      if( ulh == 0 || urh == 0 )
+        return false;
+      fixed_internal_unsigned const limit { ((lh < 0) != (rh < 0)) ? fixed_internal_unsigned{1} << 63 : (fixed_internal_unsigned{1} << 63) - 1 };
+      return ulh > limit / urh;
+      }
+      
+    ///\returns lh * rh, caller is responsible for checking multiply_overflows
+    [[ gnu::const, gnu::always_inline ]]
+    constexpr fixed_internal multiply_wrapping( fixed_internal lh, fixed_internal rh ) noexcept
+      {
+      return static_cast<fixed_internal>( static_cast<fixed_internal_unsigned>(lh) * static_cast<fixed_internal_unsigned>(rh) );
+      }
+      
     [[ gnu::const, gnu::always_inline ]]
     constexpr fixed_t fixed_multiplyi (fixed_t lh, fixed_t rh) noexcept
       {
-      fixed_t result { fix_carrier_t{ lh.v * rh.v }};
-
-      if( fixed_likely( check_multiply_result(result)) )
-        return fix_carrier_t{ result.v >> 16 };
+      if( fixed_likely( !multiply_overflows(lh.v, rh.v) ) )
+        return fix_carrier_t{ multiply_wrapping(lh.v, rh.v) >> 16 };
       
       return quiet_NaN_result();
       }
@@ -426,10 +446,19 @@ namespace fixedmath
     [[ gnu::const, gnu::always_inline ]]
     constexpr fixed_t fixed_multiply_scalar (fixed_t lh, integral_type rh) noexcept
       {
-      fixed_t result { fix_carrier_t{ lh.v * promote_type_to_signed(rh) }};
-
-      if( fixed_likely( check_multiply_result(result)) )
-        return result;
+      if constexpr ( is_unsigned_v<integral_type> && sizeof(integral_type) == sizeof(fixed_internal) )
+        {
+        //value does not fit signed type, only 0 * rh is representable
+        if( fixed_unlikely( rh > static_cast<integral_type>( std::numeric_limits<fixed_internal>::max() ) ) )
+          return lh.v == 0 ? lh : quiet_NaN_result();
+        }
+      fixed_internal const srh { promote_type_to_signed(rh) };
+      if( fixed_likely( !multiply_overflows(lh.v, srh) ) )
+        {
+        fixed_t result { fix_carrier_t{ multiply_wrapping(lh.v, srh) }};
+        if( fixed_likely( result >= limits_::lowest() && result <= limits_::max() ) )
+          return result;
+        }
       return quiet_NaN_result();
       }
     template<typename integral_type,
